@@ -695,6 +695,18 @@ Proof.
   eexists. split; [vm_compute; reflexivity|]. vm_compute. auto.
 Qed.
 
+(* the same defect with the pointer of the replayed case (corpus/C04/f3_tuple_stringref.case):
+   low four pointer bytes 0, so the decoder sees an empty string and consumes 8 of the 20 bytes *)
+Definition rf_v2 := VL [VRef 35184372088832 5; VB [7; 0; 0; 0]].
+Theorem roundtrip_refuted_tuple_stringref_replay :
+  wt rf_t rf_v2 /\
+  exists bs rest, enc rf_t rf_v2 0 [] = Some (bs, []) /\ lenN bs = 20 /\
+                  dec id_reinsert true false rf_t 0 bs = Some (VL [VB []; VB [0; 32; 0; 0]], rest) /\ lenN rest = 12.
+Proof.
+  split; [cbn; repeat split|].
+  eexists. eexists. split; [vm_compute; reflexivity|]. split; [reflexivity|]. split; [vm_compute; reflexivity|]. reflexivity.
+Qed.
+
 (* (2) without the clearing rule the encode pass reads another statement's lengths *)
 Theorem cache_sync_refuted_noclear :
   let ts := [CStr] in let vs := [VB [97; 98; 99]] in let stale0 := [2] in
